@@ -36,19 +36,54 @@ build() {
   rm -f "$log"
 }
 
+# Properties with the concurrent-hands part (world Y) need a second binary,
+# built over a generated copy of $REPO in which every engine statement is a
+# scheduling point. The copy lives under /var/tmp only while it is compiled.
+needs_y() { case "$1" in C01|C02|C07|C10|C14|C15|C16) return 0;; esac; return 1; }
+
+build_y() {
+  mkdir -p "$BUILD"
+  local tag="$(echo "$REPO" | md5sum | cut -c1-8)"
+  local copy="/var/tmp/verif-y-$tag"
+  local ybin="$BUILD/simcheck-y.$tag"
+  local log="$BUILD/build-y.$$.log"
+  (
+    flock 9
+    rm -rf "$copy"
+    (cd "$HERE/harness" && go run ./cmd/yieldgen "$REPO" "$copy/repo") >"$log" 2>&1 || exit 1
+    sed "s#=> /repo#=> $copy/repo#" "$HERE/harness/go.mod" > "$BUILD/y.$tag.mod"
+    cp "$HERE/harness/go.sum" "$BUILD/y.$tag.sum"
+    (cd "$HERE/harness" && go build -modfile="$BUILD/y.$tag.mod" -tags "verif verifyield" -o "$ybin.tmp" ./cmd/simcheck) >>"$log" 2>&1 || exit 1
+    mv "$ybin.tmp" "$ybin"
+  ) 9>"$BUILD/y.$tag.lock"
+  local rc=$?
+  rm -rf "$copy"
+  if [ $rc -ne 0 ]; then
+    echo "NOTE: the binary with scheduling points could not be built; the concurrent-hands part is left out:" >&2
+    tail -5 "$log" >&2; rm -f "$log" "$ybin.tmp"
+    export VERIF_YBIN="" VERIF_YBIN_WHY="the generated copy with scheduling points did not build"
+    return 0
+  fi
+  rm -f "$log"
+  export VERIF_YBIN="$ybin"
+}
+
 case "${1:-}" in
   setup)
     build
+    build_y
     echo "setup ok: $BIN"
     ;;
   check)
     id="${2:?property id}"; tier="${3:-${VERIF_TIER:-quick}}"
     build
+    if needs_y "$id"; then build_y; fi
     VERIF_REPO="$REPO" "$BIN" check -p "$id" -tier "$tier"
     exit $?
     ;;
   replay)
     build
+    if grep -q '"world": *"Y"' "${2:?file}" 2>/dev/null; then build_y; fi
     "$BIN" replay "${2:?file}"
     exit $?
     ;;
@@ -58,6 +93,7 @@ case "${1:-}" in
     ;;
   selftest)
     build
+    build_y
     shift
     exec "$HERE/selftest.sh" "$BIN" "$@"
     ;;
